@@ -43,7 +43,7 @@ var cfg = map[string]propCfg{
 	"C02": {Level: "exploration", QuickShards: 1, ThoroughShard: 1, Parallel: 1, QuickTimeout: 5 * time.Minute, ThorTimeout: 40 * time.Minute},
 	"C03": {Level: "exploration", QuickShards: 1, ThoroughShard: 1, Parallel: 1, QuickTimeout: 8 * time.Minute, ThorTimeout: 60 * time.Minute},
 	"C04": {Level: "exploration", QuickShards: 1, ThoroughShard: 1, Parallel: 1, QuickTimeout: 8 * time.Minute, ThorTimeout: 60 * time.Minute},
-	"C05": {Level: "exploration", QuickShards: 1, ThoroughShard: 1, Parallel: 1, QuickTimeout: 8 * time.Minute, ThorTimeout: 60 * time.Minute},
+	"C05": {Level: "exploration", QuickShards: 3, ThoroughShard: 3, Parallel: 3, QuickTimeout: 8 * time.Minute, ThorTimeout: 60 * time.Minute},
 	"C06": {Level: "exploration", QuickShards: 1, ThoroughShard: 1, Parallel: 1, QuickTimeout: 8 * time.Minute, ThorTimeout: 60 * time.Minute},
 	"C07": {Level: "exploration", QuickShards: 1, ThoroughShard: 1, Parallel: 1, QuickTimeout: 8 * time.Minute, ThorTimeout: 60 * time.Minute},
 	"C08": {Level: "exploration", QuickShards: 1, ThoroughShard: 1, Parallel: 1, QuickTimeout: 8 * time.Minute, ThorTimeout: 60 * time.Minute},
